@@ -1,9 +1,17 @@
 (* C02 -- make-move yields the successor the rules prescribe.  PARTIAL.
-   Proved: the null-move clause at full strength (abstracted to the 8x8 specification state).  The move clause
-   (makemove_refines_statement) is checked by the correspondence run on every legal move of sampled positions and
-   along play-outs (model vs implementation vs Rules.apply), not proved. *)
+   Proved: the null-move clause at full strength (abstracted to the 8x8 specification state), and the move clause for
+   every NON-CASTLING move (quiet moves, captures, double pushes, en-passant captures, promotions with and without
+   capture): all nine components of the specification state -- placement, side to move, the four castling rights,
+   en-passant target, half-move clock, full-move number -- are those of Rules.apply, under the executable test
+   MakeStages.premises_b (our man on the origin, target empty or theirs, one kind per touched square, no king on a rook
+   square, one own king, castle files <= 7, pawn geometry).  The correspondence run evaluates premises_b on every
+   legal non-castling move it generates (it must be true) and compares makemove with Rules.apply on castling moves too.
+   Castling moves (standard and Chess960) are covered by the analogous test cpremises_b; refines_b is their
+   disjunction and is evaluated (true) on every legal move the correspondence run generates.
+   Still open: that in_D is preserved, and that every legal move of a position in D passes refines_b
+   (makemove_refines_statement). *)
 From Coq Require Import NArith ZArith List Bool.
-From Rawr Require Import Consts Bits Magic Position MoveGen MakeMove Rules Abs AbsFacts.
+From Rawr Require Import Consts Bits Magic Position MoveGen MakeMove MakeStages Rules Abs AbsFacts MakeFacts MakeAbs CastleFacts CastleAbs.
 Import ListNotations.
 Local Open Scope N_scope.
 
@@ -22,5 +30,53 @@ Proof. exact board_of_flip. Qed.
 Example C02_example : colours_disjoint startpos /\ abs_state (makenull startpos) = pass_turn (abs_state startpos).
 Proof. split; vm_compute; reflexivity. Qed.
 
+(* the move clause for every non-castling move that passes the executable premise test, with or without the
+   incremental key update *)
+Theorem C02_makemove_refines_noncastling : forall u p m,
+  premises_b p m = true -> abs_state (makemove u p m) = apply (abs_state p) (dec p m).
+Proof. exact makemove_refines_premises. Qed.
+
+(* castling, written king-takes-own-rook, standard and Chess960 geometry (king or rook may already stand on a target
+   square), under the executable test cpremises_b *)
+Theorem C02_makemove_refines_castling : forall u p m,
+  cpremises_b p m = true -> abs_state (makemove u p m) = apply (abs_state p) (dec p m).
+Proof. exact makemove_refines_cpremises. Qed.
+
+(* every move kind: refines_b = premises_b || cpremises_b *)
+Theorem C02_makemove_refines : forall u p m,
+  refines_b p m = true -> abs_state (makemove u p m) = apply (abs_state p) (dec p m).
+Proof. exact makemove_refines_all. Qed.
+
+(* the definition of makemove is the composition of the stages the proof works on *)
+Theorem C02_makemove_is_its_stages : forall u p0 m,
+  makemove u p0 m =
+  flip (set_clocks_ep_rights (mv_boards u p0 m) (mv_hm u p0 m) (mv_fm p0) (mv_new_ep p0 m)
+          (keeps_right (us_ksc p0) (m_from m) (m_to m) (lsb (N.land (c_us p0) (kings p0))) (sq_of (cf0 p0) 0))
+          (keeps_right (us_qsc p0) (m_from m) (m_to m) (lsb (N.land (c_us p0) (kings p0))) (sq_of (cf1 p0) 0))
+          (keeps_right (them_ksc p0) (m_from m) (m_to m) (lsb (N.land (c_them p0) (kings p0))) (sq_of (cf2 p0) 7))
+          (keeps_right (them_qsc p0) (m_from m) (m_to m) (lsb (N.land (c_them p0) (kings p0))) (sq_of (cf3 p0) 7))).
+Proof. exact makemove_stages. Qed.
+
+(* non-vacuous: a double push, a knight move, and an en-passant capture reached by play *)
+Definition after (ms : list Mv) : Position := fold_left (makemove true) ms startpos.
+Example C02_premises_example :
+  premises_b startpos (mkMv 12 28 NOPIECE) = true /\ premises_b startpos (mkMv 6 21 NOPIECE) = true
+  /\ premises_b (after [mkMv 12 28 NOPIECE; mkMv 8 16 NOPIECE; mkMv 28 36 NOPIECE; mkMv 11 27 NOPIECE]) (mkMv 36 43 NOPIECE) = true
+  /\ mv_is_ep (after [mkMv 12 28 NOPIECE; mkMv 8 16 NOPIECE; mkMv 28 36 NOPIECE; mkMv 11 27 NOPIECE]) (mkMv 36 43 NOPIECE) = true.
+Proof. repeat split; vm_compute; reflexivity. Qed.
+
+(* castling reached by play: 1.e4 e5 2.Nf3 Nf6 3.Bc4 Bc5 4.O-O (king e1 takes rook h1), then Black castles too *)
+Definition castle_line : list Mv :=
+  [mkMv 12 28 NOPIECE; mkMv 12 28 NOPIECE; mkMv 6 21 NOPIECE; mkMv 6 21 NOPIECE; mkMv 5 26 NOPIECE; mkMv 5 26 NOPIECE].
+Example C02_castling_example :
+  cpremises_b (after castle_line) (mkMv 4 7 NOPIECE) = true
+  /\ cpremises_b (after (castle_line ++ [mkMv 4 7 NOPIECE])) (mkMv 4 7 NOPIECE) = true
+  /\ premises_b (after castle_line) (mkMv 4 7 NOPIECE) = false.
+Proof. repeat split; vm_compute; reflexivity. Qed.
+
 Print Assumptions C02_makenull_spec.
+Print Assumptions C02_makemove_refines_noncastling.
+Print Assumptions C02_makemove_is_its_stages.
+Print Assumptions C02_makemove_refines_castling.
+Print Assumptions C02_makemove_refines.
 Print Assumptions C02_flip_keeps_board.
